@@ -1,4 +1,7 @@
 use crate::*;
+#[cfg(slotted_egraphs_verif)]
+use crate::verif::Instant;
+#[cfg(not(slotted_egraphs_verif))]
 use std::time::Instant;
 
 // TODO: Turn this into a nicer interface like egg's `Runner`.
